@@ -552,6 +552,7 @@ def run_one(cfg, tape: Tape, want_trace=False):
     faults = Faults(tape, cfg, oracle_ref)
     existing = {os.path.normpath(f'{ROOT}/{f}') for f in FILES}
     simos = SimOS(k, exists=lambda p: os.path.normpath(p) in existing,
+                  create=lambda p: existing.add(os.path.normpath(p)),
                   edeadlk=cfg.get('edeadlk', True), faults=faults, stats=stats)
     oracle = Oracle(k, simos, prog)
     oracle.stats = stats
